@@ -150,6 +150,46 @@ CLAIMS.update({
         ref='DESIGN.md §5 C19'),
 })
 
+CLAIMS.update({
+    'C10': dict(
+        category='proof',
+        technique='Lean 4 theorems on the struct.pack model (packInt_accept_iff, packInt_le_value, seq_elem_accept_iff) + boundary sweep / strings / include_bytes trees against the real code',
+        text=('Theorems (every width, every integer): packInt succeeds exactly when the value fits the signed / unsigned range of the width and '
+              'then the bytes are the little-endian base-256 digits of v mod 2^(8n) (big-endian = reverse); a sequence element is accepted exactly '
+              'from the signed minimum to the unsigned maximum. assemble_layout places the data blob in order. Tie + oracle: every numeric '
+              'directive and all 20 documented pack formats x values at +-2 around signed min / signed max / unsigned max / 0 / 2^bits plus '
+              'seeded interior and huge values in three spellings (fits -> Python int.to_bytes bytes, misfit -> AssemblerError); strings with '
+              'escapes, quotes, #/,/() characters and 2-/3-/4-byte UTF-8; include_bytes with random contents (incl. empty) in the including '
+              'directory / -i directories / several directories, decoy files of equal size in the cwd, three working directories, compared '
+              'with the file the documented search finds and with the Lean filesystem model; data lines inside whole programs.'),
+        note=TB + ' String escape processing is modelled for ASCII escapes; non-ASCII text is outside the Lean model (unsupported) but inside the oracle.',
+        ref='DESIGN.md §5 C10'),
+    'C11': dict(
+        category='proof',
+        technique='Lean 4 theorems on the eval model (operator semantics, literal spellings, precedence, parser round trip) + tree-evaluated constants and constant-vs-literal program pairs on the real code',
+        text=('Theorems (BB.Props.C11, no bounds): every operator node evaluates to the mathematical operation on its operands (// = floor, % with '
+              'the divisor\'s sign, >> = floor(x/2^n), ~x = -x-1, & | ^ bitwise at every bit index), the decimal / 0x / 0b spelling of every n '
+              'evaluates to n, Python\'s precedence and associativity hold for all 121 operator pairs, fully parenthesised renderings parse back '
+              '(parse_render); the model\'s mnemonic tables equal the live module\'s (TablesFront). Tie + oracle: seeded expression trees whose '
+              'value is computed from the TREE are rendered with random spacing / redundant parentheses / literal spellings and must equal the '
+              'constants table of the real assemble(); all 95 printable ASCII character literals; a constant in each of 21 operand positions '
+              '(immediates, shift amounts, register aliases, data, %hi/%lo/%position, li) vs its literal value, both modes; the Lean model must '
+              'agree on every program. Known finding KF-C (character literals of , # ( ) and quotes).'),
+        note=TB + ' Python-only expression syntax beyond the documented operators is unsupported (counted, never compared). A name as a branch/jal target is a reference, not a literal offset (documented operand meaning).',
+        ref='DESIGN.md §5 C11'),
+    'C13': dict(
+        category='proof',
+        technique='Lean 4 theorems on the lexer/parser model (sep_irrelevant, blank/comment lines, reg_spelling, int_spelling, base_offset_forms) + pairwise comparison of re-spelled programs on the real code',
+        text=('Theorems (BB.Props.C13): replacing any separator run by any other, adding leading/trailing blanks or a trailing comment leaves the '
+              'token list unchanged (sep_irrelevant, for all ASCII lines that are not string/error lines); blank and comment-only lines yield no '
+              'item; every register spelling (number, xN, ABI alias, hex/binary/octal numeral) names its register; the two base+offset '
+              'spellings of all 11 mnemonics parse to the same item from source text. Tie + oracle: each generated program is re-spelled 5-8 '
+              'times, every line and operand independently, and the real assembler\'s bytes and ordered label tables must be pairwise equal in '
+              'both modes; the Lean model must agree on the variants.'),
+        note=TB + ' ASCII input; Unicode whitespace is outside the documented freedoms.',
+        ref='DESIGN.md §5 C13'),
+})
+
 PENDING_REASON = 'check not built yet (work in progress; see DESIGN.md section 5 for the plan)'
 
 
